@@ -195,6 +195,7 @@ def run(ctx, extra_cases=()):
         sizes = [(1, 2), (2, 4), (3, 5), (4, 5), (5, 4), (6, 4), (7, 1), (8, 1)]
         cases = gen.gen_cases(rng, 2000, sizes)
         cases += gen.gen_cases(rng, 24, [(10, 1), (12, 1)])
+        cases += gen.gen_cases(rng, 8, [(17, 1), (18, 1)])      # beyond a 16-wide blocking factor
     else:
         cases = []
         for k in range(5):
@@ -203,6 +204,7 @@ def run(ctx, extra_cases=()):
             cases += gen.gen_cases(r2, 260, [(10, 1), (11, 1), (12, 1), (13, 1), (14, 1)])
             cases += gen.gen_cases(r2, 40, [(15, 1), (16, 1), (17, 1), (18, 1), (19, 1), (20, 1)])
             cases += gen.gen_cases(r2, 13, [(21, 1), (22, 1), (23, 1), (24, 1)])
+            cases += gen.gen_cases(r2, 3, [(33, 1), (35, 1)])   # beyond a 32-wide blocking factor
     cases = list(extra_cases) + corpus_cases() + gen.fixed_cases() + cases
     ctx.log("generated %d cases" % len(cases))
 
